@@ -23,6 +23,11 @@ func (r *ReadFS) OpenFile(path string, flag experimentalsys.Oflag, perm fs.FileM
 	default: // sys.O_RDONLY (integer zero) so we are ok!
 	}
 
+	// A read-only access mode does not stop the host from creating or truncating the file.
+	if flag&(experimentalsys.O_CREAT|experimentalsys.O_TRUNC) != 0 {
+		return nil, experimentalsys.ENOSYS
+	}
+
 	f, errno := r.FS.OpenFile(path, flag, perm)
 	if errno != 0 {
 		return nil, errno
